@@ -60,8 +60,22 @@ def reentry(c):
     c.timeout_s = max(c.timeout_s, 240)
 
 
+def link_layer_reentry_wiring(c):
+    """Caller side (real USB3LinkLayer): 'leaving U0' / 're-enabled' / 'USB reset' of the statement are what the receiver's enable and
+    usb_reset inputs carry, the link commands of the re-advertisement go to the physical layer, and the receiver (and the link
+    command detector whose LRTY / LBAD reports it uses) keep looking at the receive stream."""
+    from .c37_header_receive import LinkLayerUnits, lemmas_enable_and_reset, lemmas_link_commands_reach_the_phy, lemmas_receive_stream
+    U = LinkLayerUnits(c)
+    lemmas_enable_and_reset(c, U, U.hrx, "header_receiver", "Every time the link layer is re-enabled after leaving U0, or after a USB reset")
+    lemmas_enable_and_reset(c, U, U.ptx, "packet_transmitter", "the transmitter (which hosts the link command detector) follows the same link state")
+    lemmas_link_commands_reach_the_phy(c, U)
+    lemmas_receive_stream(c, U, [("header_receiver", U.hrx.sink), ("raw_header_receiver", U.raw.sink), ("link_command_detector", U.det.sink)],
+                          clause="receive side of the header receiver")
+
+
 def contracts(tier):
     yield ("HeaderPacketReceiver", "reentry", reentry)
+    yield ("USB3LinkLayer", "wiring_enable_reset", link_layer_reentry_wiring)
 
 
 LEVEL = "proof"
